@@ -24,15 +24,13 @@ theorem C17_finished_end_is_done (c : RtCtx) (σ : CState)
     (hacc : (c.M.st σ.state.toNat).accepting = true)
     (herr : ∀ a ∈ (c.M.st σ.state.toNat).arms, a.err = true) :
     c.endCall σ = (σ, "DONE") := by
-  have harm := (C06_accepting_ignores_error_arms (c.M.st σ.state.toNat) 0 hacc herr).2
-  have h1 : ¬ σ.state < 0 := by omega
-  have h2 : ¬ c.M.states.size ≤ σ.state.toNat := by omega
-  simp [RtCtx.endCall, Machine.call, Machine.stepFuel, Machine.dispatch, h1, h2, hk, harm,
-    fallOut, hacc, RtCtx.runTree]
+  have hcall := C06_accepting_ignores_error_arms c.M c.semOpts σ.state.toNat symEnd hs.2 hk hacc herr
+  rw [Int.toNat_of_nonneg hs.1] at hcall
+  simp [RtCtx.endCall, hcall, RtCtx.runTree]
 
-theorem feedArm_go_mem (s : St) (x : Nat) :
+theorem feedArm_go_mem (x : Nat) :
     ∀ (arms : List Arm) (b : Bool) (a : Arm),
-      St.feedArm.go s x (fun a => a.on.contains onElse) arms b = some a → a.on.contains x = true := by
+      St.feedArm.go x (fun a => a.on.contains onElse) arms b = some a → a.on.contains x = true := by
   intro arms
   induction arms with
   | nil => intro b a h; simp [St.feedArm.go] at h
@@ -42,10 +40,8 @@ theorem feedArm_go_mem (s : St) (x : Nat) :
     split at h
     · exact ih _ _ h
     · split at h
+      · next hx => simp only [Option.some.injEq] at h; subst h; exact hx
       · exact ih _ _ h
-      · split at h
-        · next hx => simp only [Option.some.injEq] at h; subst h; exact hx
-        · exact ih _ _ h
 
 /-- An arm listing only end-of-input is never selected for a data byte. -/
 theorem C17_end_arm_never_on_byte (s : St) (x : Nat) (a : Arm) (hx : x < 256)
@@ -55,38 +51,25 @@ theorem C17_end_arm_never_on_byte (s : St) (x : Nat) (a : Arm) (hx : x < 256)
   split at h
   · next a' hgo =>
     simp only [Option.some.injEq] at h; subst h
-    have := feedArm_go_mem s x _ _ _ hgo
+    have := feedArm_go_mem x _ _ _ hgo
     simp [hon, symEnd] at this
     omega
-  · split at h
-    · next a' he =>
-      have hmem : a'.on.contains onElse = true := by
-        simp only [St.elseArm] at he
-        exact List.find?_some (p := fun (a : Arm) => a.on.contains onElse) he
-      split at h
-      · exact absurd h (by simp)
-      · simp only [Option.some.injEq] at h; subst h
-        simp [hon, symEnd, onElse] at hmem
-    · exact absurd h (by simp)
+  · have hmem : a.on.contains onElse = true := by
+      simp only [St.elseArm] at h
+      exact List.find?_some (p := fun (a : Arm) => a.on.contains onElse) h
+    simp [hon, symEnd, onElse] at hmem
 
 /-- `end()` only takes an arm that lists end-of-input or the else symbol. -/
 theorem C17_byte_arm_never_on_end (s : St) (a : Arm) (h : s.endArm = some a) :
     a.on.contains symEnd = true ∨ a.on.contains onElse = true := by
   simp only [St.endArm] at h
   split at h
-  · next a' hsel =>
-    split at h
-    · exact absurd h (by simp)
-    · simp only [Option.some.injEq] at h; subst h
-      split at hsel
-      · next a'' hf =>
-        simp only [Option.some.injEq] at hsel; subst hsel
-        left; exact List.find?_some (p := fun (a : Arm) => a.on.contains symEnd) hf
-      · next hf =>
-        right
-        simp only [St.elseArm] at hsel
-        exact List.find?_some (p := fun (a : Arm) => a.on.contains onElse) hsel
-  · exact absurd h (by simp)
+  · next a'' hf =>
+    simp only [Option.some.injEq] at h; subst h
+    left; exact List.find?_some (p := fun (a : Arm) => a.on.contains symEnd) hf
+  · right
+    simp only [St.elseArm] at h
+    exact List.find?_some (p := fun (a : Arm) => a.on.contains onElse) h
 
 /-- When the arm `end()` takes is a consuming else arm without actions whose target is not
     accepting (what `Machine.endArmsOK` demands of every arm that does not list end-of-input),
@@ -94,12 +77,13 @@ theorem C17_byte_arm_never_on_end (s : St) (a : Arm) (h : s.endArm = some a) :
     match end-of-input. -/
 theorem C17_data_never_matches_end (M : Machine) (o : SemOpts) (s : Nat) (a : Arm)
     (hs : s < M.states.size) (hk : (M.st s).kind = .normal) (harm : (M.st s).endArm = some a)
-    (hfall : a.fall = false) (hacts : a.acts = .nil) (hacc : M.isAccepting a.target = false) :
+    (hfall : a.fall = false) (hacts : a.acts = .nil) (hacc : M.isAccepting a.target = false)
+    (hne : ((M.st s).accepting && a.err) = false) :
     M.call o s symEnd =
       .leaf (.ret (if (M.st s).accepting then "DONE" else "FAIL") (if a.target ≥ 0 then a.target else s) 0) := by
   have h2 : ¬ M.states.size ≤ s := by omega
   have h1 : ¬ ((s : Int) < 0) := by omega
   simp [Machine.call, Machine.stepFuel, Machine.dispatch, h1, h2, hk, harm, Machine.armTree,
-    Machine.immediateDone, hfall, hacts, hacc, Acts.tree, Acts.mayYield, fallOut, symEnd]
+    Machine.immediateDone, hfall, hacts, hacc, hne, Acts.tree, Acts.mayYield, fallOut, symEnd]
 
 end Nmfu
